@@ -40,6 +40,7 @@ def main():
     for p, rs in zip(progs, results):
         ncompiled += sum(1 for r in rs if "teal" in r)
         e, meta = pipeline.make_entry(len(entries) + 1, p, rs, pipeline.make_cx(p, udom="u3"))
+        e["strict"] = 1          # a text still running after max_steps where the source reached a verdict is reported (Refine.Compare)
         if len(e["texts"]) >= 2:
             npairs += sum(1 for t in e["texts"] if t["cmp"])
             entries.append(e)
